@@ -45,6 +45,17 @@ func ReachFrom(starts []*ssa.BasicBlock, cut EdgeSet) map[*ssa.BasicBlock]bool {
 	return seen
 }
 
+// succsNotCut: the successors of b that are reached over an edge that is not cut.
+func succsNotCut(b *ssa.BasicBlock, cut EdgeSet) []*ssa.BasicBlock {
+	var out []*ssa.BasicBlock
+	for i, s := range b.Succs {
+		if cut == nil || !cut[Edge{b, i}] {
+			out = append(out, s)
+		}
+	}
+	return out
+}
+
 // BackEdges: edges whose target dominates their source.
 func BackEdges(fn *ssa.Function) EdgeSet {
 	out := EdgeSet{}
